@@ -4,34 +4,34 @@ from __future__ import annotations
 import ast
 from typing import Dict, List, Optional, Tuple
 
-from sa.astx import call_attr, call_name, const_eval, dotted, module_consts, src, statements, walk_local
-from sa.effects import accesses, module_accesses
-from sa.props._lib_g import is_self_attr, must_pass, single_defs
+from sa.astx import module_consts, src
+from sa.effects import module_accesses
+from sa.props._lib_g import (DictInst, Inst, MiniEval, NativeModel, Opaque, OpaqueInst, PyFn, Raised, Stub, Unsupported, _ClassRef, run_eval)
 from sa.selftest import Mutant, Silent
 from sa.source import AnalysisError
 
 PROPERTY = "C31"
 AMP = "protocols/amp.py"
 Q = "twisted.protocols.amp"
-TECHNIQUE = "take-then-fire, who-may-write and guard dominance on BoxDispatcher CFGs"
+TECHNIQUE = "scenario interpretation of BoxDispatcher with modelled Deferreds, plus who-may-write closure"
 EXPLANATION = (
-    'On the CFGs of BoxDispatcher: _answerReceived/_errorReceived detach the pending Deferred from '
-    '_outstandingRequests (pop or read+del, keyed by box[ANSWER] / box[ERROR]) before their single callback/errback '
-    'and fire it on every normal path, and ampBoxReceived routes ANSWER/ERROR/COMMAND boxes to the handler that reads '
-    'the same key. failAllOutgoing records _failAllReason and resets _outstandingRequests before the first errback '
-    'call-out, iterates a snapshot taken before the reset and errbacks every entry with the reason; '
-    'BinaryBoxProtocol.connectionLost, AMP.connectionLost and stopReceivingBoxes reach it on every path. '
-    '_sendBoxCommand returns fail(_failAllReason)/None before touching the box once the connection is lost, registers '
-    'a fresh Deferred only when an answer is required, under the tag it put into box[ASK] (from a counter only '
-    '_nextTag increments), sends on every live path and returns the registered Deferred. formatAnswer/formatError '
-    'copy box[ASK] into ANSWER/ERROR, undeclared errors travel as UNKNOWN_ERROR_CODE and surface as '
-    'UnknownRemoteError, declared ones go through Command.allErrors; only the listed functions mutate '
-    '_outstandingRequests, _failAllReason and _counter. Not decided: schedules and interleavings, the synchronous '
-    'loop-back case where an answer arrives before the Deferred is registered, responders that never answer.'
+    "BoxDispatcher, BinaryBoxProtocol.connectionLost, AMP.connectionLost, Command._doCommand and the responder wrapper are interpreted "
+    "(whitelisted AST interpreter; Deferred, Failure, fail and maybeDeferred are models written in the checker, transports/locators are recording stubs) on "
+    "scenarios, and the observable OUTCOMES are compared with the property, so helper extraction, guard clauses, renamed temporaries or data-driven "
+    "dispatch do not matter. "
+    "Scenarios: three concurrent calls answered out of order (each probe fires exactly once with its own box), error boxes (declared code, "
+    "UNHANDLED, unknown), a duplicate answer (never a second fire), calls without answer (nothing registered, no ASK), tag injectivity across counter "
+    "values incl. 16/32-bit boundaries, failAllOutgoing and the three connection-loss entry points in every state (switched protocol, key limit "
+    "exceeded, TLS just started) - all pending calls fail once with the reason, later and re-entrant calls (made from a failing call's errback) fail "
+    "at once and send nothing; incoming commands: answer tagged with the question's ASK, declared error codes (also for a subclass of a declared "
+    "error), fatal errors in a QuitBox, undeclared errors as UNKNOWN, unknown commands as UNHANDLED, no reply without ASK; on the caller side unknown "
+    "codes surface as UnknownRemoteError and declared ones through reverseErrors. "
+    "Statically: _outstandingRequests, _failAllReason and _counter are mutated only by the known functions or private helpers all of whose callers "
+    "are allowed. Not decided: real scheduling, the synchronous loop-back case (answer arriving inside sendBox), responders that never answer."
 )
 ASSUMPTIONS = [
-    "Deferred.callback/errback deliver exactly one result (property C03)",
-    "a peer sends at most one answer per tag (a duplicate answer raises KeyError in the receiver, it cannot fire a Deferred twice)",
+    "the Deferred/Failure models follow twisted's documented semantics for callback/errback/addCallbacks/trap/check (exactly-once delivery itself is property C03)",
+    "constructors of RemoteAmpError/UnknownRemoteError store their arguments (modelled); methods inherited from classes outside amp.py/basic.py do nothing relevant",
 ]
 
 
@@ -39,440 +39,677 @@ def _fail(msg):
     raise AnalysisError("C31: " + msg)
 
 
-def _not_failed_guard(g, n) -> bool:
-    for t, lab in g.edge_guards(n):
-        s = src(g.node(t).ast)
-        if (s == "self._failAllReason is not None" and lab == "F") or (s == "self._failAllReason is None" and lab == "T") or (s == "self._failAllReason" and lab == "F"):
-            return True
-    return False
+# ---- models -----------------------------------------------------------------------------------------------------------
 
+class FailureModel(NativeModel):
+    _methods = {"check", "trap", "getErrorMessage", "getBriefTraceback", "getTraceback", "printTraceback"}
+    _attrs = {"value", "type"}
 
-def _failed_tests(g) -> List[Tuple[int, str]]:
-    """(test node, label of the 'connection already lost' edge)."""
-    out = []
-    for t in g.ids(lambda n: n.kind == "test"):
-        s = src(g.node(t).ast)
-        if s in ("self._failAllReason is not None", "self._failAllReason"):
-            out.append((t, "T"))
-        elif s == "self._failAllReason is None":
-            out.append((t, "F"))
-    return out
-
-
-def _subscript_key(node) -> Optional[str]:
-    return src(node.slice) if isinstance(node, ast.Subscript) else None
-
-
-# ------------------------------------------------------------------------------------------------------------------
-
-def check_take_then_fire(ctx, fname: str, keyconst: str, fire: str):
-    f = ctx.func(AMP, f"BoxDispatcher.{fname}")
-    g = ctx.cfg(f)
-    q = f"{Q}.BoxDispatcher.{fname}"
-    box = f.args.args[1].arg
-    want_key = f"{box}[{keyconst}]"
-    defs = single_defs(f)
-    acc = accesses(f, fname, {"_outstandingRequests"}, {"self"}, include_reads=True)
-    detach = [a for a in acc if a.kind in ("pop_key", "delitem")]
-    detach_nodes = sorted({n for a in detach for n in g.ids_of(a.node)})
-    # fire sites: .callback/.errback on a local that comes out of _outstandingRequests
-    fires = []
-    for c in ast.walk(f):
-        if isinstance(c, ast.Call) and isinstance(c.func, ast.Attribute) and c.func.attr in ("callback", "errback") and isinstance(c.func.value, ast.Name):
-            d = defs.get(c.func.value.id)
-            if d is not None and any(is_self_attr(x, "_outstandingRequests") for x in ast.walk(d)):
-                fires.append((c, d))
-    ctx.check(len(fires) == 1 and fires[0][0].func.attr == fire, "match/fires-once", q + " | <fire>",
-              f"{fname} contains {len(fires)} callback/errback sites on the pending Deferred (exactly one `{fire}` is required: each call gets one result)")
-    if not fires:
-        return
-    for c, d in fires:
-        fnodes = g.ids_of(c)
-        # where does the Deferred come from, and under which key
-        if isinstance(d, ast.Call) and call_name(d) == "self._outstandingRequests.pop":
-            key = src(d.args[0]) if d.args else None
-        elif isinstance(d, ast.Subscript) and is_self_attr(d.value, "_outstandingRequests"):
-            key = _subscript_key(d)
-        elif isinstance(d, ast.Call) and call_name(d) == "self._outstandingRequests.get" and d.args:
-            key = src(d.args[0])
+    def __init__(self, world, value):
+        self.world = world
+        self.value = value
+        if isinstance(value, Inst):
+            self.type = _ClassRef(value.cls)
+        elif isinstance(value, OpaqueInst):
+            self.type = value.of
+        elif isinstance(value, Raised):
+            self.type = Opaque(value.name)
         else:
-            key = None
-        ctx.check(key == want_key, "match/own-tag", ctx.construct(q, d),
-                  f"the pending Deferred is looked up under `{key}`; the tag of this box is `{want_key}` (the answer would fire another call's Deferred)")
-        wit = g.must_precede(detach_nodes, fnodes) if detach_nodes else [g.entry]
-        ctx.check(bool(detach_nodes) and wit is None, "match/take-before-fire", q + " | <pending Deferred>",
-                  "the pending Deferred is fired while still registered in _outstandingRequests: a duplicate answer or the connection loss "
-                  "(failAllOutgoing) fires it a second time", witness=g.describe(wit) if detach_nodes else "no pop/del of _outstandingRequests in this function")
-        for a in detach:
-            k = src(a.node.args[0]) if isinstance(a.node, ast.Call) and a.node.args else \
-                next((_subscript_key(t) for t in getattr(a.node, "targets", []) if isinstance(t, ast.Subscript)), None)
-            ctx.check(k == want_key, "match/own-tag", ctx.construct(q, a.node), f"the entry removed from _outstandingRequests is `{k}`, the tag of this box is `{want_key}`")
-        # every normal path from the detach reaches the fire
-        wit = must_pass(g, detach_nodes, fnodes) if detach_nodes else None
-        ctx.check(wit is None, "match/fires-once", q + " | <fire on every path>", "the Deferred can be removed from the table without being fired (the call never completes)",
-                  witness=g.describe(wit))
-        # not in a loop: no path from the fire back to itself
-        again = [p for n in fnodes for p in [g.path([n], [n], strict=True, edge_ok=lambda a, b, l: l != "exc")] if p]
-        ctx.check(not again, "match/fires-once", q + " | <fire not repeated>", "the fire site can execute twice in one call")
-    if fire == "callback":
-        c = fires[0][0]
-        ctx.check(len(c.args) == 1 and src(c.args[0]) == box, "match/result-is-the-box", ctx.construct(q, c), "the call's Deferred is not fired with the answer box itself")
+            self.type = Opaque(type(value).__name__)
+
+    def _matches(self, t) -> bool:
+        v = self.value
+        if isinstance(t, _ClassRef):
+            return isinstance(v, Inst) and self.world.ev.derives(v.cls, t.cls)
+        if isinstance(t, Opaque):
+            name = v.of.name if isinstance(v, OpaqueInst) else (v.name if isinstance(v, Raised) else None)
+            seen = 0
+            while name is not None and seen < 6:
+                if name == t.name:
+                    return True
+                name = self.world.opaque_parents.get(name)
+                seen += 1
+            return t.name in ("Exception", "BaseException")
+        if isinstance(t, type):
+            return t in (Exception, BaseException)
+        return False
+
+    def check(self, *types):
+        for t in types:
+            if self._matches(t):
+                return t
+        return None
+
+    def trap(self, *types):
+        m = self.check(*types)
+        if m is None:
+            raise Raised(self.type.name if isinstance(self.type, Opaque) else self.type.cls.name, self.value)
+        return m
+
+    def getErrorMessage(self):
+        return repr(self.value)
+
+    getBriefTraceback = getTraceback = getErrorMessage
+
+    def printTraceback(self, *a, **k):
+        return None
+
+    def __repr__(self):
+        return f"<Failure {self.value!r}>"
+
+
+class DeferredModel(NativeModel):
+    _methods = {"addCallback", "addErrback", "addCallbacks", "addBoth", "callback", "errback", "chainDeferred", "cancel"}
+    _attrs = {"called", "result"}
+
+    def __init__(self, world):
+        self.world = world
+        self.chain: List[Tuple] = []
+        self.called = False
+        self.result = None
+        self.fires = 0
+        self.running = False
+        self.paused = False
+
+    def addCallbacks(self, callback, errback=None, callbackArgs=(), callbackKeywords=None, errbackArgs=(), errbackKeywords=None):
+        self.chain.append(((callback, tuple(callbackArgs or ()), dict(callbackKeywords or {})), (errback, tuple(errbackArgs or ()), dict(errbackKeywords or {}))))
+        if self.called:
+            self._run()
+        return self
+
+    def addCallback(self, callback, *a, **k):
+        return self.addCallbacks(callback, None, a, k)
+
+    def addErrback(self, errback, *a, **k):
+        return self.addCallbacks(None, errback, (), None, a, k)
+
+    def addBoth(self, fn, *a, **k):
+        return self.addCallbacks(fn, fn, a, k, a, k)
+
+    def chainDeferred(self, d):
+        return self.addCallbacks(("native", d, "callback"), ("native", d, "errback"))
+
+    def cancel(self):
+        return None
+
+    def callback(self, result):
+        self._fire(result)
+
+    def errback(self, fail=None):
+        if not isinstance(fail, FailureModel):
+            fail = FailureModel(self.world, fail)
+        self._fire(fail)
+
+    def _fire(self, result):
+        self.fires += 1
+        if self.called:
+            self.world.double_fires.append(self)
+            raise Raised("AlreadyCalledError")
+        self.called = True
+        self.result = result
+        self._run()
+
+    def _run(self):
+        if self.running or self.paused:
+            return
+        self.running = True
+        try:
+            while self.chain:
+                (cb, ca, ck), (eb, ea, ek) = self.chain.pop(0)
+                fn, a, k = (eb, ea, ek) if isinstance(self.result, FailureModel) else (cb, ca, ck)
+                if fn is None:
+                    continue
+                try:
+                    if isinstance(fn, tuple) and fn and fn[0] == "native":
+                        getattr(fn[1], fn[2])(self.result)
+                        self.result = None
+                    else:
+                        self.result = self.world.ev.call_value(fn, [self.result] + list(a), k, "deferred callback")
+                except Raised as ex:
+                    self.result = FailureModel(self.world, ex.value if ex.value is not None else ex)
+                if isinstance(self.result, DeferredModel):
+                    inner = self.result
+                    if inner.called and not inner.chain:
+                        self.result = inner.result
+                        inner.result = None
+                    else:
+                        self.paused = True
+                        outer = self
+
+                        def resume(r, outer=outer):
+                            outer.result = r
+                            outer.paused = False
+                            outer._run()
+                            return None
+                        inner.addBoth(PyFn(resume, "resume"))
+                        break
+        finally:
+            self.running = False
+
+
+class World:
+    """One scenario: an interpreter, the models it hands to the interpreted code, and the recorders."""
+
+    def __init__(self, ctx, mod, consts):
+        self.ctx, self.mod = ctx, mod
+        self.double_fires: List[DeferredModel] = []
+        self.opaque_parents = {"MySubError": "MyError", "ConnectionDone": "ConnectionClosed", "ConnectionLost": "ConnectionClosed"}
+        cls = {n.name: n for n in mod.tree.body if isinstance(n, ast.ClassDef)}
+        self.cls = cls
+
+        def remote(errorCode, description, fatal=False, local=None):
+            return Inst(cls["RemoteAmpError"], errorCode=errorCode, description=description, fatal=fatal, local=local, args=(description,))
+
+        def unknown(description):
+            return Inst(cls["UnknownRemoteError"], errorCode=consts.get("UNKNOWN_ERROR_CODE"), description=description, fatal=False, local=None, args=(description,))
+
+        def maybe(f, *a, **k):
+            try:
+                r = self.ev.call_value(f, list(a), k, "responder")
+            except Raised as ex:
+                d = DeferredModel(self)
+                d.errback(FailureModel(self, ex.value if ex.value is not None else ex))
+                return d
+            if isinstance(r, DeferredModel):
+                return r
+            if isinstance(r, FailureModel):
+                d = DeferredModel(self)
+                d.errback(r)
+                return d
+            d = DeferredModel(self)
+            d.callback(r)
+            return d
+
+        def failed(x=None):
+            d = DeferredModel(self)
+            d.errback(x if isinstance(x, FailureModel) else FailureModel(self, x))
+            return d
+
+        self.ev = MiniEval(mod, consts=consts, extra_mods=[ctx.mod("protocols/basic.py")], helpers={
+            "Deferred": lambda: DeferredModel(self), "fail": failed, "maybeDeferred": maybe, "Failure": lambda v=None: FailureModel(self, v),
+            "RemoteAmpError": remote, "UnknownRemoteError": unknown, "nativeString": lambda b: b.decode("ascii") if isinstance(b, bytes) else b,
+            "MethodType": lambda f, o: PyFn(lambda *a, **k: self.ev.call_value(f, [o] + list(a), k), "bound"),
+        })
+        self.sender = Stub("boxSender", attrs={"transport": Stub("transport")})
+        self.responders: Dict[bytes, object] = {}
+        self.locator = Stub("locator", returns={"locateResponder": PyFn(lambda name: self.responders.get(name), "locateResponder")})
+
+    # -- helpers for scenarios
+    def run(self, what, fn):
+        k, v = run_eval(fn)
+        if k == "unsupported":
+            _fail(f"{what} uses a construct outside the interpreted subset: {v}")
+        return k, v
+
+    def dispatcher(self) -> Inst:
+        d = Inst(self.cls["BoxDispatcher"])
+        k, v = self.run("BoxDispatcher.__init__", lambda: self.ev.method(d, "__init__", [self.locator]))
+        if k != "value":
+            _fail(f"BoxDispatcher.__init__ raises {v}")
+        self.run("BoxDispatcher.startReceivingBoxes", lambda: self.ev.method(d, "startReceivingBoxes", [self.sender]))
+        return d
+
+    def box(self, data=None) -> DictInst:
+        return DictInst(self.cls["AmpBox"], data=dict(data or {}))
+
+    def probe(self, d) -> Dict[str, list]:
+        log = {"ok": [], "err": []}
+        if isinstance(d, DeferredModel):
+            d.addCallbacks(PyFn(lambda r: log["ok"].append(r), "probe-ok"), PyFn(lambda f: log["err"].append(f), "probe-err"))
+        return log
+
+    def sent(self) -> List[DictInst]:
+        return [a[0] for a in self.sender.called("sendBox")]
+
+    def call(self, disp, command=b"cmd", requiresAnswer=True, box=None):
+        b = box if box is not None else self.box({b"arg": b"1"})
+        k, d = self.run("BoxDispatcher._sendBoxCommand", lambda: self.ev.method(disp, "_sendBoxCommand", [command, b, requiresAnswer]))
+        return k, d, b
+
+    def receive(self, disp, data):
+        return self.run("BoxDispatcher.ampBoxReceived", lambda: self.ev.method(disp, "ampBoxReceived", [self.box(data)]))
+
+
+def _consts(ctx):
+    return module_consts(ctx.mod(AMP))
+
+
+def _desc(f):
+    if isinstance(f, FailureModel):
+        v = f.value
+        if isinstance(v, Inst):
+            return f"{v.cls.name}({v.fields.get('errorCode', v.fields.get('args'))!r}, {v.fields.get('description')!r})"
+        return repr(v)
+    return repr(f)
+
+
+# ---- scenarios ---------------------------------------------------------------------------------------------------------
+
+def check_matching(ctx, mod, consts):
+    q = Q + ".BoxDispatcher"
+    for name in ("_sendBoxCommand", "_answerReceived", "_errorReceived", "ampBoxReceived", "_nextTag"):
+        ctx.func(AMP, f"BoxDispatcher.{name}")
+    ASK, ANSWER, ERROR, COMMAND = (consts[k] for k in ("ASK", "ANSWER", "ERROR", "COMMAND"))
+    EC, ED = consts["ERROR_CODE"], consts["ERROR_DESCRIPTION"]
+    # -- three concurrent calls, answers out of order
+    w = World(ctx, mod, consts)
+    disp = w.dispatcher()
+    calls = [w.call(disp, b"c%d" % i) for i in range(3)]
+    probes = [w.probe(d) for _, d, _ in calls]
+    sent = w.sent()
+    tags = [b.data.get(ASK) for b in sent]
+    ok = all(k == "value" and isinstance(d, DeferredModel) for k, d, _ in calls) and len(sent) == 3 and len(set(tags)) == 3 and None not in tags \
+        and all(b.data.get(COMMAND) == b"c%d" % i for i, b in enumerate(sent)) and all(b.data.get(b"arg") == b"1" for b in sent)
+    ctx.check(ok, "send/box-and-tag", q + "._sendBoxCommand | <three concurrent calls>",
+              f"three calls returned {[k for k, _, _ in calls]} and sent {[dict(b.data) for b in sent]!r}: each must return a Deferred and send its box with COMMAND, its arguments and "
+              "a distinct ASK tag")
+    if ok:
+        order = [1, 2, 0]
+        fired_wrong = None
+        for step, i in enumerate(order):
+            k, v = w.receive(disp, {ANSWER: tags[i], b"n": b"%d" % i})
+            if k != "value":
+                fired_wrong = fired_wrong or f"the answer to call {i} raises {v}"
+            for j, p in enumerate(probes):
+                want = 1 if j in order[:step + 1] else 0
+                if len(p["ok"]) != want or p["err"]:
+                    fired_wrong = fired_wrong or f"after answering calls {order[:step + 1]} call {j} has {len(p['ok'])} results and {len(p['err'])} errors"
+                if want and p["ok"] and (not isinstance(p["ok"][0], DictInst) or p["ok"][0].data.get(b"n") != b"%d" % j):
+                    fired_wrong = fired_wrong or f"call {j} received {p['ok'][0]!r}, which answers another call"
+        ctx.check(fired_wrong is None and not w.double_fires, "match/own-answer", q + " | <answers out of order>", fired_wrong or "a Deferred was fired twice")
+        # a duplicate answer must not fire anything again
+        k, v = w.receive(disp, {ANSWER: tags[0], b"n": b"again"})
+        ctx.check(all(len(p["ok"]) == 1 and not p["err"] for p in probes) and not w.double_fires, "match/fires-once", q + " | <duplicate answer>",
+                  "a second answer carrying an already answered tag fires a call's Deferred again")
+    # -- error boxes
+    w = World(ctx, mod, consts)
+    disp = w.dispatcher()
+    calls = [w.call(disp, b"c%d" % i) for i in range(3)]
+    probes = [w.probe(d) for _, d, _ in calls]
+    tags = [b.data.get(ASK) for b in w.sent()]
+    bad = None
+    if len(tags) == 3 and None not in tags:
+        codes = [b"MYCODE", consts["UNHANDLED_ERROR_CODE"], consts["UNKNOWN_ERROR_CODE"]]
+        for i in (2, 0, 1):
+            k, v = w.receive(disp, {ERROR: tags[i], EC: codes[i], ED: b"why %d" % i})
+            if k != "value":
+                bad = bad or f"the error box for call {i} raises {v}"
+        for i, p in enumerate(probes):
+            if len(p["err"]) != 1 or p["ok"]:
+                bad = bad or f"call {i} got {len(p['err'])} errors and {len(p['ok'])} results from its error box"
+                continue
+            f = p["err"][0]
+            val = f.value if isinstance(f, FailureModel) else None
+            code_, desc_ = (val.fields.get("errorCode"), val.fields.get("description")) if isinstance(val, Inst) and "errorCode" in val.fields else \
+                (tuple(val.fields.get("args", (None, None))[:2]) if isinstance(val, Inst) and len(val.fields.get("args", ())) >= 2 else (None, None))
+            if not (isinstance(val, Inst) and code_ == codes[i] and desc_ in ("why %d" % i, b"why %d" % i)):
+                bad = bad or f"call {i} failed with {_desc(f)}; its error box said code {codes[i]!r}, description 'why {i}'"
+            if i == 1 and isinstance(val, Inst) and val.cls.name != "UnhandledCommand":
+                bad = bad or f"an UNHANDLED error box surfaces as {val.cls.name}, not UnhandledCommand"
     else:
-        c = fires[0][0]
-        ok = len(c.args) == 1 and isinstance(c.args[0], ast.Call) and call_name(c.args[0]) == "Failure" and len(c.args[0].args) == 1
-        ctx.check(ok, "match/error-from-box", ctx.construct(q, c), "the call's Deferred is not errbacked with Failure(<exception built from the error box>)")
-        if ok:
-            ev = c.args[0].args[0]
-            srcs = [st for st in statements(f) if isinstance(st, ast.Assign) and any(isinstance(t, ast.Name) and t.id == src(ev) for t in st.targets)]
-            ok2 = bool(srcs) and all(isinstance(st.value, ast.Call) and st.value.args and src(st.value.args[0]) in ("errorCode", f"{box}[ERROR_CODE]") for st in srcs)
-            codes = [st for st in statements(f) if isinstance(st, ast.Assign) and any(isinstance(t, ast.Name) and t.id == "errorCode" for t in st.targets)]
-            ok3 = all(src(st.value) == f"{box}[ERROR_CODE]" for st in codes)
-            ctx.check(ok2 and ok3, "match/error-from-box", q + " | <error code>", "the exception delivered to the caller is not built from the box's ERROR_CODE")
-
-
-def check_dispatch(ctx):
-    f = ctx.func(AMP, "BoxDispatcher.ampBoxReceived")
-    g = ctx.cfg(f)
-    q = Q + ".BoxDispatcher.ampBoxReceived"
-    box = f.args.args[1].arg
-    want = {"ANSWER": "_answerReceived", "ERROR": "_errorReceived", "COMMAND": "_commandReceived"}
-    found: Dict[str, str] = {}
-    for key, handler in want.items():
-        calls = g.find(lambda x, h=handler: isinstance(x, ast.Call) and call_name(x) == f"self.{h}")
-        ctx.check(len(calls) == 1, "dispatch/table", q + f" | {key}", f"self.{handler}(box) is called from {len(calls)} places of ampBoxReceived")
-        for n in calls:
-            gs = [(src(g.node(t).ast), lab) for t, lab in g.edge_guards(n)]
-            ctx.check((f"{key} in {box}", "T") in gs, "dispatch/table", q + f" | {key}",
-                      f"{handler} is not reached exactly for boxes containing the {key} key (guards: {gs})")
-            call = next(x for x in walk_local(g.node(n).ast) if isinstance(x, ast.Call) and call_name(x) == f"self.{handler}")
-            ctx.check([src(a) for a in call.args] == [box], "dispatch/table", q + f" | {key} argument", f"{handler} is not given the received box")
-    raises = g.ids(lambda n: n.kind == "stmt" and isinstance(n.ast, ast.Raise))
-    ok = bool(raises) and all({(f"{k} in {box}", "F") for k in want} <= {(src(g.node(t).ast), lab) for t, lab in g.edge_guards(r)} for r in raises)
-    ctx.check(ok, "dispatch/table", q + " | <none of the keys>", "a box with none of ANSWER/ERROR/COMMAND is not refused (NoEmptyBoxes)")
-
-
-def check_fail_all(ctx):
-    f = ctx.func(AMP, "BoxDispatcher.failAllOutgoing")
-    g = ctx.cfg(f)
-    q = Q + ".BoxDispatcher.failAllOutgoing"
-    reason = f.args.args[1].arg
-    callouts = g.find(lambda x: isinstance(x, ast.Call) and call_attr(x) == "errback")
-    ctx.check(bool(callouts), "drain/errbacks-all", q, "failAllOutgoing never errbacks anything")
-    rec = g.ids(lambda n: n.kind == "stmt" and isinstance(n.ast, ast.Assign) and any(is_self_attr(t, "_failAllReason") for t in n.ast.targets) and src(n.ast.value) == reason)
-    reset = g.ids(lambda n: n.kind == "stmt" and isinstance(n.ast, ast.Assign) and any(is_self_attr(t, "_outstandingRequests") for t in n.ast.targets)
-                  and isinstance(n.ast.value, ast.Constant) and n.ast.value.value is None)
-    wit = g.must_precede(rec, callouts) if rec else [g.entry]
-    ctx.check(bool(rec) and wit is None, "drain/reason-recorded-first", q + " | self._failAllReason",
-              "an errback runs before _failAllReason is recorded: a callRemote made from that errback is sent on the dead connection and never fails",
-              witness=g.describe(wit) if rec else "")
-    wit = g.must_precede(reset, callouts) if reset else [g.entry]
-    ctx.check(bool(reset) and wit is None, "drain/table-reset-first", q + " | self._outstandingRequests = None",
-              "an errback runs while the Deferreds are still registered: a re-entrant failAllOutgoing/answer fires them a second time",
-              witness=g.describe(wit) if reset else "_outstandingRequests is not reset to None")
-    wit = must_pass(g, [g.entry], rec) if rec else None
-    ctx.check(bool(rec) and wit is None, "drain/reason-recorded-first", q + " | <every path>", "failAllOutgoing can return without recording the reason (later calls would hang)",
-              witness=g.describe(wit))
-    # snapshot
-    loops = [st for st in f.body if isinstance(st, ast.For)]
-    if len(loops) != 1:
-        _fail("failAllOutgoing: the errback loop was not found")
-    loop = loops[0]
-    defs = single_defs(f)
-    it = loop.iter
-    snap_node = None
-    if isinstance(it, ast.Name) and it.id in defs:
-        d = defs[it.id]
-        snap_stmt = next(st for st in statements(f) if isinstance(st, ast.Assign) and st.value is d)
-        snap_node = g.ids_of(snap_stmt)
-        itx = d
-    else:
-        itx = it
-    inner = itx
-    while isinstance(inner, ast.Call) and call_name(inner) in ("list", "tuple", "sorted") and inner.args:
-        inner = inner.args[0]
-    kind = call_name(inner) if isinstance(inner, ast.Call) else None
-    ctx.check(kind in ("self._outstandingRequests.items", "self._outstandingRequests.values"), "drain/errbacks-all", q + " | <snapshot>",
-              f"the loop iterates over `{src(itx)}`, not over all pending requests")
-    if snap_node:
-        wit = g.must_precede(snap_node, reset)
-        ctx.check(wit is None, "drain/errbacks-all", q + " | <snapshot before reset>", "the pending requests are read after the table was reset", witness=g.describe(wit))
-    else:
-        # iterating self._outstandingRequests directly: the reset must not precede the loop head
-        heads = g.ids_of(loop)
-        p = g.must_precede(heads, reset)
-        ctx.check(p is None, "drain/errbacks-all", q + " | <snapshot before reset>", "the table is reset before it is iterated", witness=g.describe(p))
-    # each entry errbacked with the reason
-    tgt = loop.target
-    val = tgt.elts[1].id if (kind or "").endswith(".items") and isinstance(tgt, ast.Tuple) and len(tgt.elts) == 2 and isinstance(tgt.elts[1], ast.Name) else (tgt.id if isinstance(tgt, ast.Name) else None)
-    body_calls = [c for st in loop.body for c in ast.walk(st) if isinstance(c, ast.Call) and call_attr(c) == "errback"]
-    ok = len(body_calls) == 1 and val is not None and src(body_calls[0].func.value) == val and [src(a) for a in body_calls[0].args] == [reason] \
-        and body_calls[0] in [getattr(st, "value", None) for st in loop.body]
-    ctx.check(ok, "drain/errbacks-all", q + " | <each entry>", "not every pending Deferred is errbacked (unconditionally) with the connection-loss reason")
-
-
-def check_send(ctx):
-    f = ctx.func(AMP, "BoxDispatcher._sendBoxCommand")
-    g = ctx.cfg(f)
-    q = Q + ".BoxDispatcher._sendBoxCommand"
-    params = [a.arg for a in f.args.args]
-    if len(params) < 4:
-        _fail("_sendBoxCommand signature changed")
-    _, command, box, req = params[:4]
-    ft = _failed_tests(g)
-    ctx.check(len(ft) >= 1, "send/late-call-refused", q + " | <connection-lost test>", "_sendBoxCommand does not test self._failAllReason: calls made after the connection "
-              "is lost are sent into the void and their Deferred never fires")
-    touches = g.ids(lambda n: n.kind in ("stmt", "test") and n.ast is not None and (
-        any(isinstance(x, ast.Subscript) and isinstance(x.ctx, ast.Store) and src(x.value) == box for x in walk_local(n.ast)) or
-        any(isinstance(x, ast.Call) and call_name(x) in (f"{box}._sendTo", "self._nextTag") for x in walk_local(n.ast)) or
-        any(isinstance(x, ast.Subscript) and isinstance(x.ctx, ast.Store) and is_self_attr(x.value, "_outstandingRequests") for x in walk_local(n.ast))))
-    ctx.need(touches, "box mutation / send / registration sites in _sendBoxCommand")
-    for n in touches:
-        ctx.check(_not_failed_guard(g, n), "send/late-call-refused", ctx.construct(q, g.node(n).ast),
-                  "this statement runs although the connection is already lost (_failAllReason set): the box is modified/sent or a Deferred is registered "
-                  "that nothing will ever fire", witness=g.describe(g.path([g.entry], [n])))
-    for t, lab in ft:
-        succ = [d for d, l in g.succ[t] if l == lab]
-        reach = g.reach(succ, edge_ok=lambda a, b, l: l != "exc")
-        rets = [i for i in reach if g.node(i).kind == "stmt" and isinstance(g.node(i).ast, ast.Return)]
-        leak = g.path([x for x in succ if x not in rets], [g.exit], avoid=rets, edge_ok=lambda a, b, l: l != "exc")
-        ctx.check(bool(rets) and leak is None, "send/late-call-refused", q + " | <lost: returns at once>", "the connection-lost branch falls through", witness=g.describe(leak))
-        for r in rets:
-            if _not_failed_guard(g, r):
-                continue  # a return of the live path
-            v = g.node(r).ast.value
-            gs = {(src(g.node(tt).ast), ll) for tt, ll in g.edge_guards(r)}
-            if isinstance(v, ast.IfExp) and src(v.test) in (req, f"not {req}"):
-                yes, no = (v.body, v.orelse) if src(v.test) == req else (v.orelse, v.body)
-                ok = isinstance(yes, ast.Call) and call_name(yes) == "fail" and [src(a) for a in yes.args] == ["self._failAllReason"] and isinstance(no, ast.Constant) and no.value is None
-                ctx.check(ok, "send/late-call-fails-with-reason", ctx.construct(q, g.node(r).ast), "a call made after the connection is lost does not fail with the connection-loss reason")
-            elif (req, "T") in gs:
-                ok = isinstance(v, ast.Call) and call_name(v) == "fail" and [src(a) for a in v.args] == ["self._failAllReason"]
-                ctx.check(ok, "send/late-call-fails-with-reason", ctx.construct(q, g.node(r).ast), "a call made after the connection is lost does not fail with the connection-loss reason")
-            elif (req, "F") in gs:
-                ctx.check(v is None or (isinstance(v, ast.Constant) and v.value is None), "send/late-call-fails-with-reason", ctx.construct(q, g.node(r).ast),
-                          "a no-answer call after connection loss must return None")
+        bad = "calls were not sent with tags"
+    ctx.check(bad is None and not w.double_fires, "match/own-error", q + " | <error boxes out of order>", bad or "a Deferred was fired twice")
+    # -- the application drops the connection from inside the handler of a result: that call is finished and must not be failed on top
+    for kind in ("answer", "error"):
+        w = World(ctx, mod, consts)
+        disp = w.dispatcher()
+        calls = [w.call(disp, b"c%d" % i) for i in range(2)]
+        tags = [b.data.get(ASK) for b in w.sent()]
+        reason = FailureModel(w, OpaqueInst(Opaque("ConnectionDone")))
+        d0 = calls[0][1]
+        bad = None
+        if not isinstance(d0, DeferredModel) or None in tags:
+            bad = "calls were not sent with tags"
+        else:
+            d0.addBoth(PyFn(lambda r: (w.ev.method(disp, "failAllOutgoing", [reason]), r)[1], "drop-connection-in-handler"))
+            p0, p1 = w.probe(d0), w.probe(calls[1][1])
+            data = {ANSWER: tags[0], b"n": b"0"} if kind == "answer" else {ERROR: tags[0], EC: b"X", ED: b"d"}
+            w.receive(disp, data)
+            if d0.fires != 1 or w.double_fires:
+                bad = f"a call whose {kind} handler loses the connection is fired {d0.fires} times (its {kind} and then the connection-loss failure): it was still registered while its Deferred ran"
+            elif len(p1["err"]) != 1:
+                bad = f"the other pending call got {len(p1['err'])} failures when the connection was lost inside a handler"
+        ctx.check(bad is None, "match/fires-once", q + f" | <connection lost inside the {kind} handler>", bad or "")
+    # -- a box that is neither answer, error nor command
+    w = World(ctx, mod, consts)
+    disp = w.dispatcher()
+    k, v = w.receive(disp, {b"stray": b"1"})
+    ctx.check(k == "raised" and v == "NoEmptyBoxes", "dispatch/unknown-box", q + ".ampBoxReceived | <no distinguishing key>", f"a box without ANSWER/ERROR/COMMAND gives {v!r} ({k}) instead of NoEmptyBoxes")
+    # -- calls that do not want an answer
+    w = World(ctx, mod, consts)
+    disp = w.dispatcher()
+    k, d, b = w.call(disp, b"fire", requiresAnswer=False)
+    sent = w.sent()
+    pending = disp.fields.get("_outstandingRequests")
+    ok = k == "value" and d is None and len(sent) == 1 and ASK not in sent[0].data and sent[0].data.get(COMMAND) == b"fire" and not pending
+    ctx.check(ok, "send/no-answer-call", q + "._sendBoxCommand | <requiresAnswer=False>",
+              f"a call that wants no answer returned {d!r} ({k}), sent {[dict(x.data) for x in sent]!r} and left {pending!r} registered; it must return None, send the box without ASK and register nothing")
+    # -- tags are an injective function of the counter
+    seen: Dict[bytes, int] = {}
+    bad = None
+    for start in (0, 1, 9, 15, 16, 254, 255, 256, 4095, 65534, 65535, 65536, 65537, 2 ** 31 - 1, 2 ** 32 - 2, 2 ** 32 - 1, 2 ** 32, 2 ** 40):
+        w = World(ctx, mod, consts)
+        disp = w.dispatcher()
+        disp.fields["_counter"] = start
+        for step in range(2):
+            k, t = w.run("BoxDispatcher._nextTag", lambda: w.ev.method(disp, "_nextTag", []))
+            n = start + step + 1
+            if k != "value" or not isinstance(t, bytes) or not t:
+                bad = bad or f"_nextTag() with counter {start + step} gives {t!r} ({k})"
+            elif t in seen and seen[t] != n:
+                bad = bad or f"the {n}th and the {seen[t]}th question of a connection get the same tag {t!r}: an answer would be matched to the wrong (or a finished) call"
             else:
-                ok = isinstance(v, ast.Call) and call_name(v) == "fail" and [src(a) for a in v.args] == ["self._failAllReason"]
-                ctx.check(ok, "send/late-call-fails-with-reason", ctx.construct(q, g.node(r).ast), "a call made after the connection is lost does not fail with the connection-loss reason")
-    # registration
-    regs = g.ids(lambda n: n.kind == "stmt" and isinstance(n.ast, ast.Assign) and any(isinstance(t, ast.Subscript) and is_self_attr(t.value, "_outstandingRequests") for t in n.ast.targets))
-    ctx.check(len(regs) == 1, "send/registers-own-tag", q + " | <registration>", f"{len(regs)} registration sites in _sendBoxCommand (exactly one expected)")
-    asks = g.ids(lambda n: n.kind == "stmt" and isinstance(n.ast, ast.Assign) and any(isinstance(t, ast.Subscript) and src(t.value) == box and src(t.slice) == "ASK" for t in n.ast.targets))
-    ctx.check(len(asks) == 1, "send/registers-own-tag", q + " | box[ASK]", f"box[ASK] is assigned at {len(asks)} places")
-    defs = single_defs(f)
-    for r in regs:
-        st = g.node(r).ast
-        key = next(src(t.slice) for t in st.targets if isinstance(t, ast.Subscript))
-        ctx.check(g.guarded(r, lambda e: src(e) == req, True), "send/registers-iff-answer-required", ctx.construct(q, st),
-                  "a Deferred is registered although no answer was requested (it would stay pending until disconnect)")
-        ctx.check(isinstance(st.value, ast.Call) and call_name(st.value) == "Deferred" and not st.value.args, "send/registers-own-tag", ctx.construct(q, st) + " | value",
-                  "the registered object is not a fresh Deferred()")
-        for a in asks:
-            av = src(g.node(a).ast.value)
-            ctx.check(av == key, "send/registers-own-tag", ctx.construct(q, st) + " | key", f"the Deferred is registered under `{key}` but the question is tagged box[ASK] = `{av}`")
-            ctx.check(g.guarded(a, lambda e: src(e) == req, True), "send/registers-iff-answer-required", ctx.construct(q, g.node(a).ast),
-                      "the box asks for an answer although requiresAnswer is false")
-            tagdef = defs.get(av)
-            ctx.check(tagdef is not None and isinstance(tagdef, ast.Call) and call_name(tagdef) == "self._nextTag", "send/fresh-tag", ctx.construct(q, g.node(a).ast) + " | tag",
-                      f"the tag `{av}` does not come from a single self._nextTag() call of this invocation")
-        # the Deferred returned is the registered one
-        names = {t.id for t in st.targets if isinstance(t, ast.Name)}
-        rets = [i for i in g.reach([r], edge_ok=lambda a, b, l: l != "exc") if g.node(i).kind == "stmt" and isinstance(g.node(i).ast, ast.Return)]
-        ok = bool(rets) and all(isinstance(g.node(i).ast.value, ast.Name) and g.node(i).ast.value.id in names for i in rets)
-        if ok:
-            # not reassigned between the registration and the return
-            rew = g.ids(lambda n: n.kind == "stmt" and n.id != r and isinstance(n.ast, ast.Assign) and any(isinstance(t, ast.Name) and t.id in names for t in n.ast.targets))
-            ok = g.path([r], rew, edge_ok=lambda a, b, l: l != "exc") is None
-        ctx.check(ok, "send/returns-registered-deferred", ctx.construct(q, st) + " | return", "the Deferred handed to the caller is not the one registered for the tag")
-    # the send itself, on every live path
-    sends = g.find(lambda x: isinstance(x, ast.Call) and call_name(x) == f"{box}._sendTo")
-    live = [d for t, lab in ft for d, l in g.succ[t] if l in ("T", "F") and l != lab]
-    wit = must_pass(g, live, sends) if sends and live else None
-    ctx.check(bool(sends) and wit is None, "send/sends-the-box", q + " | <send>", "a live _sendBoxCommand can return without sending the box", witness=g.describe(wit))
-    cmds = g.ids(lambda n: n.kind == "stmt" and isinstance(n.ast, ast.Assign) and any(isinstance(t, ast.Subscript) and src(t.value) == box and src(t.slice) == "COMMAND" for t in n.ast.targets)
-                 and src(n.ast.value) == command)
-    wit = g.must_precede(cmds, sends) if cmds else [g.entry]
-    ctx.check(bool(cmds) and wit is None, "send/sends-the-box", q + " | box[COMMAND]", "the box is sent without its COMMAND key", witness=g.describe(wit) if cmds else "")
-    wit = g.must_precede(asks, sends, exc=False) if asks else None
-    # (only when an answer is required: the path through requiresAnswer-true)
-    for s in sends:
-        for a in asks:
-            t_req = [t for t, lab in g.edge_guards(a) if src(g.node(t).ast) == req and lab == "T"]
-            starts = [d for t in t_req for d, l in g.succ[t] if l == "T" and d != a]
-            p = g.path(starts, [s], avoid=[a], edge_ok=lambda x, y, l: l != "exc") if starts else None
-            ctx.check(p is None, "send/registers-own-tag", q + " | <ASK before send>", "the box can be sent without its ASK tag although an answer is required", witness=g.describe(p))
+                seen[t] = n
+    ctx.check(bad is None, "send/fresh-tag", q + "._nextTag | <counter values incl. 2^16 / 2^32 boundaries>", bad or "", detail=f"{len(seen)} tags, pairwise distinct")
 
-    # _nextTag
-    f2 = ctx.func(AMP, "BoxDispatcher._nextTag")
-    incs = [st for st in statements(f2) if isinstance(st, ast.AugAssign) and is_self_attr(st.target, "_counter")]
-    ok = len(incs) == 1 and isinstance(incs[0].op, ast.Add) and isinstance(incs[0].value, ast.Constant) and isinstance(incs[0].value.value, int) and incs[0].value.value > 0
-    g2 = ctx.cfg(f2)
-    rets = g2.ids(lambda n: n.kind == "stmt" and isinstance(n.ast, ast.Return))
-    ok2 = ok and bool(rets) and g2.must_precede([n for st in incs for n in g2.ids_of(st)], rets) is None and \
-        all(any(is_self_attr(x, "_counter") for x in ast.walk(g2.node(r).ast)) for r in rets)
-    ctx.check(ok2, "send/fresh-tag", Q + ".BoxDispatcher._nextTag", "_nextTag does not return a value derived from a counter it has just incremented (tags could repeat)")
 
+def check_disconnect(ctx, mod, consts):
+    q = Q + ".BoxDispatcher"
+    ctx.func(AMP, "BoxDispatcher.failAllOutgoing")
+    ASK, COMMAND = consts["ASK"], consts["COMMAND"]
+
+    def scenario(label, lose, make=None, same_reason=False):
+        """pending calls + one re-entrant call made from the first call's errback; ``lose(world, obj)`` loses the connection."""
+        w = World(ctx, mod, consts)
+        disp = make(w) if make else w.dispatcher()
+        calls = [w.call(disp, b"c%d" % i) for i in range(3)]
+        nsent = len(w.sent())
+        reentrant: Dict[str, object] = {}
+
+        def again(f):
+            k, d, b = w.call(disp, b"late")
+            reentrant["k"], reentrant["d"], reentrant["box"] = k, d, b
+            reentrant["probe"] = w.probe(d)
+            return None
+        probes = []
+        for i, (_, d, _) in enumerate(calls):
+            if i == 0 and isinstance(d, DeferredModel):
+                d.addErrback(PyFn(again, "call-again-from-errback"))
+            probes.append(w.probe(d))
+        reason = FailureModel(w, OpaqueInst(Opaque("ConnectionDone")))
+        tags_before = [b.data.get(ASK) for b in w.sent()]
+        k, v = w.run(label, lambda: lose(w, disp, reason))
+        bad = None
+        if k != "value":
+            bad = f"{label} raises {v}"
+        for i, p in enumerate(probes[1:], 1):
+            if len(p["err"]) != 1 or p["ok"]:
+                bad = bad or f"after {label} pending call {i} has {len(p['err'])} failures and {len(p['ok'])} results (exactly one failure is required)"
+            elif same_reason and p["err"][0] is not reason:
+                bad = bad or f"after {label} pending call {i} fails with {_desc(p['err'][0])}, not with the connection-loss reason it was given"
+        # an answer that straggles in after the loss must not fire anything again
+        if bad is None and tags_before and tags_before[1] is not None:
+            w.receive(disp, {consts["ANSWER"]: tags_before[1], b"n": b"late"})
+            if probes[1]["ok"] or len(probes[1]["err"]) != 1 or w.double_fires:
+                bad = f"an answer arriving after {label} fires the already failed call again"
+        d0 = calls[0][1]
+        if not (isinstance(d0, DeferredModel) and d0.called and d0.fires == 1):
+            bad = bad or f"after {label} pending call 0 fired {getattr(d0, 'fires', '?')} times"
+        if w.double_fires:
+            bad = bad or "a Deferred was fired twice"
+        ctx.check(bad is None, "drain/fails-pending", q + f" | {label}", bad or "")
+        # the re-entrant call
+        rb = None
+        if "k" not in reentrant:
+            rb = "the errback of the first pending call never ran"
+        else:
+            d = reentrant["d"]
+            if not (reentrant["k"] == "value" and isinstance(d, DeferredModel) and d.called and len(reentrant["probe"]["err"]) == 1):
+                rb = f"a callRemote made from the connection-loss errback of another call returned {d!r} ({reentrant['k']}) that has not failed: it is registered on a dead connection and never fires"
+            elif len(w.sent()) != nsent:
+                rb = "a callRemote made from the connection-loss errback of another call still writes its box to the lost connection"
+        ctx.check(rb is None, "drain/reentrant-call", q + f" | {label}", rb or "")
+        # later calls
+        k, d, b = w.call(disp, b"after")
+        p = w.probe(d)
+        lb = None
+        if not (k == "value" and isinstance(d, DeferredModel) and d.called and len(p["err"]) == 1):
+            lb = f"a call made after {label} returned {d!r} ({k}) instead of an already failed Deferred"
+        elif len(w.sent()) != nsent:
+            lb = f"a call made after {label} is still sent"
+        elif dict(b.data) != {b"arg": b"1"}:
+            lb = f"a call made after {label} modifies its box to {dict(b.data)!r} although nothing is sent"
+        k2, d2, _ = w.call(disp, b"after", requiresAnswer=False)
+        if not (k2 == "value" and d2 is None and len(w.sent()) == nsent):
+            lb = lb or f"a no-answer call made after {label} returned {d2!r} ({k2}) / was sent"
+        ctx.check(lb is None, "drain/late-call-fails", q + f" | {label}", lb or "")
+        return w
+
+    scenario("failAllOutgoing(reason)", lambda w, d, r: w.ev.method(d, "failAllOutgoing", [r]), same_reason=True)
+    scenario("stopReceivingBoxes(reason)", lambda w, d, r: w.ev.method(d, "stopReceivingBoxes", [r]), same_reason=True)
+
+    # the protocol's connectionLost in every state
+    def amp(w, **state):
+        a = Inst(w.cls["AMP"], boxReceiver=None, locator=w.locator, _outstandingRequests={}, transport=Stub("transport"), boxSender=w.sender,
+                 _transportPeer="peer", _transportHost="host", _ampInitialized=True)
+        a.fields["boxReceiver"] = a
+        a.fields.update(state)
+        return a
+
+    for name in ("BinaryBoxProtocol.connectionLost", "AMP.connectionLost", "BoxDispatcher.stopReceivingBoxes"):
+        ctx.func(AMP, name)
+    states = [("plain", {}), ("protocol switched", {"innerProtocol": Stub("inner"), "innerProtocolClientFactory": Stub("factory")}),
+              ("protocol switched, no factory", {"innerProtocol": Stub("inner")}), ("key limit exceeded", {"_keyLengthLimitExceeded": True}),
+              ("TLS just started", {"_justStartedTLS": True})]
+    for label, st in states:
+        for closed in ("ConnectionDone", "ConnectionLost"):
+            def lose(w, a, r, closed=closed):
+                r2 = FailureModel(w, OpaqueInst(Opaque(closed)))
+                return w.ev.method(a, "connectionLost", [r2])
+            scenario(f"AMP.connectionLost({closed}) [{label}]", lose, make=lambda w, st=st: amp(w, **st))
+
+
+def check_replies(ctx, mod, consts):
+    q = Q + ".BoxDispatcher._commandReceived"
+    for name in ("_commandReceived", "dispatchCommand", "_safeEmit"):
+        ctx.func(AMP, f"BoxDispatcher.{name}")
+    ASK, ANSWER, ERROR, COMMAND, EC, ED = (consts[k] for k in ("ASK", "ANSWER", "ERROR", "COMMAND", "ERROR_CODE", "ERROR_DESCRIPTION"))
+
+    # a responder that answers
+    w = World(ctx, mod, consts)
+    disp = w.dispatcher()
+    w.responders[b"cmd"] = PyFn(lambda box: w.box({b"r": b"ok"}), "responder")
+    k, v = w.receive(disp, {COMMAND: b"cmd", ASK: b"7", b"a": b"1"})
+    sent = w.sent()
+    ctx.check(k == "value" and len(sent) == 1 and dict(sent[0].data) == {b"r": b"ok", ANSWER: b"7"}, "reply/answer", q + " | <responder answers>",
+              f"the reply to a question tagged ASK=b'7' is {[dict(b.data) for b in sent]!r} ({k} {v if k != 'value' else ''}); it must be the responder's box plus ANSWER=b'7'")
+    # later answer (the responder returns a Deferred fired afterwards) and two questions answered in reverse order
+    w = World(ctx, mod, consts)
+    disp = w.dispatcher()
+    pend: List[DeferredModel] = []
+
+    def later(box):
+        d = DeferredModel(w)
+        pend.append(d)
+        return d
+    w.responders[b"cmd"] = PyFn(later, "responder")
+    w.receive(disp, {COMMAND: b"cmd", ASK: b"1"})
+    w.receive(disp, {COMMAND: b"cmd", ASK: b"2"})
+    none_yet = len(w.sent()) == 0
+    if len(pend) == 2:
+        pend[1].callback(w.box({b"r": b"second"}))
+        pend[0].callback(w.box({b"r": b"first"}))
+    got = [dict(b.data) for b in w.sent()]
+    ctx.check(none_yet and got == [{b"r": b"second", ANSWER: b"2"}, {b"r": b"first", ANSWER: b"1"}], "reply/answer", q + " | <answers later, in reverse order>",
+              f"two questions answered later in reverse order produce {got!r}; each answer must carry the ASK tag of its own question")
+    # declared / fatal / undeclared errors, unknown command, no ASK
+    cases = [
+        ("declared error", lambda w: FailureModel(w, w.ev.helpers["RemoteAmpError"](b"MYCODE", "nope")), "AmpBox", b"MYCODE", b"nope", False),
+        ("fatal declared error", lambda w: FailureModel(w, w.ev.helpers["RemoteAmpError"](b"FATAL", "dead", True)), "QuitBox", b"FATAL", b"dead", True),
+        ("undeclared error", lambda w: FailureModel(w, OpaqueInst(Opaque("ZeroDivisionError"))), "QuitBox", consts["UNKNOWN_ERROR_CODE"], None, True),
+    ]
+    for label, mk, boxcls, code, desc, quits in cases:
+        w = World(ctx, mod, consts)
+        disp = w.dispatcher()
+        w.responders[b"cmd"] = PyFn(lambda box, w=w, mk=mk: mk(w), "responder")
+        k, v = w.receive(disp, {COMMAND: b"cmd", ASK: b"9"})
+        sent = w.sent()
+        ok = k == "value" and len(sent) == 1 and sent[0].data.get(ERROR) == b"9" and sent[0].data.get(EC) == code and ANSWER not in sent[0].data \
+            and isinstance(sent[0].data.get(ED), bytes) and (desc is None or sent[0].data.get(ED) == desc) and sent[0].cls.name == boxcls
+        closed = bool(w.sender.attrs["transport"].called("loseConnection"))
+        ctx.check(ok and closed == quits, "reply/undeclared-error" if label == "undeclared error" else "reply/declared-error", q + f" | <{label}>",
+                  f"a responder failing with a {label} produces {[(b.cls.name, dict(b.data)) for b in sent]!r} ({k}), connection closed: {closed}; expected one {boxcls} with ERROR=b'9', "
+                  f"ERROR_CODE={code!r}" + (f", ERROR_DESCRIPTION={desc!r}" if desc else "") + f", connection closed: {quits}")
+    w = World(ctx, mod, consts)
+    disp = w.dispatcher()
+    k, v = w.receive(disp, {COMMAND: b"nosuch", ASK: b"3"})
+    sent = w.sent()
+    ok = k == "value" and len(sent) == 1 and sent[0].data.get(ERROR) == b"3" and sent[0].data.get(EC) == consts["UNHANDLED_ERROR_CODE"]
+    ctx.check(ok, "reply/unhandled-command", q + " | <no responder>", f"a command nobody handles is answered with {[dict(b.data) for b in sent]!r} ({k}); expected ERROR=b'3', ERROR_CODE=UNHANDLED")
+    w = World(ctx, mod, consts)
+    disp = w.dispatcher()
+    ran = []
+    w.responders[b"cmd"] = PyFn(lambda box: (ran.append(1), w.box({b"r": b"x"}))[1], "responder")
+    k, v = w.receive(disp, {COMMAND: b"cmd"})
+    ctx.check(k == "value" and ran == [1] and not w.sent(), "reply/not-asked", q + " | <command without ASK>",
+              f"a command without ASK ran the responder {len(ran)} times and sent {[dict(b.data) for b in w.sent()]!r}; it must run once and send nothing")
+
+
+def check_error_translation(ctx, mod, consts):
+    """Caller side (Command._doCommand) and responder side (CommandLocator._wrapWithSerialization)."""
+    ASK, ANSWER, ERROR, EC, ED = (consts[k] for k in ("ASK", "ANSWER", "ERROR", "ERROR_CODE", "ERROR_DESCRIPTION"))
+    ctx.func(AMP, "Command._doCommand")
+    for code, want in ((b"MYCODE", "MyError"), (b"OTHER", "UnknownRemoteError"), (consts["UNKNOWN_ERROR_CODE"], "UnknownRemoteError")):
+        w = World(ctx, mod, consts)
+        disp = w.dispatcher()
+        cmd = Inst(w.cls["Command"], structured={}, requiresAnswer=True, commandName=b"cmd", reverseErrors={b"MYCODE": Opaque("MyError")})
+        k, d = w.run("Command._doCommand", lambda: w.ev.method(cmd, "_doCommand", [disp]))
+        p = w.probe(d)
+        sent = w.sent()
+        bad = None
+        if not (k == "value" and isinstance(d, DeferredModel) and len(sent) == 1):
+            bad = f"_doCommand returned {d!r} ({k}) and sent {len(sent)} boxes"
+        else:
+            w.receive(disp, {ERROR: sent[0].data.get(ASK), EC: code, ED: b"because"})
+            f = p["err"][0] if len(p["err"]) == 1 and not p["ok"] else None
+            v = f.value if isinstance(f, FailureModel) else None
+            name = v.of.name if isinstance(v, OpaqueInst) else (v.cls.name if isinstance(v, Inst) else repr(v))
+            if name != want:
+                bad = f"an error box with code {code!r} reaches the caller of callRemote as {name} ({len(p['err'])} failures, {len(p['ok'])} results); expected {want}"
+        ctx.check(bad is None, "caller/error-mapping", f"{Q}.Command._doCommand | error code {code!r}", bad or "")
+    # an answer reaches the caller parsed, a no-answer command returns None
+    w = World(ctx, mod, consts)
+    disp = w.dispatcher()
+    cmd = Inst(w.cls["Command"], structured={}, requiresAnswer=False, commandName=b"cmd", reverseErrors={})
+    k, d = w.run("Command._doCommand", lambda: w.ev.method(cmd, "_doCommand", [disp]))
+    ctx.check(k == "value" and d is None and len(w.sent()) == 1 and ASK not in w.sent()[0].data, "caller/error-mapping", f"{Q}.Command._doCommand | requiresAnswer=False",
+              f"a command that needs no answer returned {d!r} ({k})")
+    # responder side
+    ctx.func(AMP, "CommandLocator._wrapWithSerialization")
+    for label, raised, want_code, passes in (("declared error", "MyError", b"MYCODE", False), ("subclass of a declared error", "MySubError", b"MYCODE", False),
+                                             ("undeclared error", "KeyError", None, True)):
+        w = World(ctx, mod, consts)
+        command = Stub("command", attrs={"allErrors": {Opaque("MyError"): b"MYCODE", Opaque("FatalError"): b"FATAL"}, "fatalErrors": {Opaque("FatalError"): b"FATAL"},
+                                          "errors": {Opaque("MyError"): b"MYCODE"}},
+                       returns={"parseArguments": {}, "makeResponse": PyFn(lambda objects, proto: w.box({b"r": b"1"}), "makeResponse")})
+        loc = Inst(w.cls["CommandLocator"])
+
+        def responder(**kw):
+            raise Raised(raised, OpaqueInst(Opaque(raised)))
+        k, doit = w.run("CommandLocator._wrapWithSerialization", lambda: w.ev.method(loc, "_wrapWithSerialization", [PyFn(responder, "responder"), command]))
+        k2, d = w.run("the wrapped responder", lambda: w.ev.call_value(doit, [w.box({})], {}, "doit"))
+        p = w.probe(d)
+        f = p["err"][0] if len(p["err"]) == 1 else None
+        v = f.value if isinstance(f, FailureModel) else None
+        if passes:
+            ok = isinstance(v, OpaqueInst) and v.of.name == raised
+            msg = f"an undeclared {raised} raised by a responder comes out as {_desc(f)}; it must pass through untouched (and be reported as UNKNOWN by formatError)"
+        else:
+            ok = isinstance(v, Inst) and v.fields.get("errorCode") == want_code and v.fields.get("fatal") is False
+            msg = f"a responder raising {raised} ({label}; the command declares MyError -> b'MYCODE') produces {_desc(f)}; the peer must get RemoteAmpError code {want_code!r}"
+        ctx.check(k == "value" and k2 == "value" and ok, "responder/declared-errors", f"{Q}.CommandLocator._wrapWithSerialization | {label}", msg)
+
+
+# ---- who may write (static, closed over private helpers) ---------------------------------------------------------------
 
 def check_who_may_write(ctx, mod):
     allowed = {
-        "_outstandingRequests": {("BoxDispatcher.__init__", "rebind-empty"), ("BoxDispatcher._sendBoxCommand", "setitem"), ("BoxDispatcher._answerReceived", "pop_key"),
-                                 ("BoxDispatcher._answerReceived", "delitem"), ("BoxDispatcher._errorReceived", "pop_key"), ("BoxDispatcher._errorReceived", "delitem"),
-                                 ("BoxDispatcher.failAllOutgoing", "assign")},
-        "_failAllReason": {("BoxDispatcher.failAllOutgoing", "assign")},
-        "_counter": {("BoxDispatcher._nextTag", "augassign")},
+        "_outstandingRequests": {"BoxDispatcher.__init__", "BoxDispatcher._sendBoxCommand", "BoxDispatcher._answerReceived", "BoxDispatcher._errorReceived", "BoxDispatcher.failAllOutgoing"},
+        "_failAllReason": {"BoxDispatcher.failAllOutgoing"},
+        "_counter": {"BoxDispatcher._nextTag"},
     }
+    # callers of each method of the class (self.<name>(...) anywhere in the module)
+    callers: Dict[str, set] = {}
+    for qn, f in mod.functions():
+        for c in ast.walk(f):
+            if isinstance(c, ast.Call) and isinstance(c.func, ast.Attribute) and isinstance(c.func.value, ast.Name) and c.func.value.id == "self":
+                callers.setdefault(c.func.attr, set()).add(qn)
+            if isinstance(c, ast.Attribute) and isinstance(c.value, ast.Name) and c.value.id == "self" and not isinstance(getattr(c, "_parent", None), ast.Call):
+                callers.setdefault(c.attr, set()).add(qn + " (as a value)")
+
+    def permitted(func: str, attr: str, seen=()) -> bool:
+        base = func.split(".")
+        if func in allowed[attr] or any(func.startswith(a + ".") for a in allowed[attr]):
+            return True
+        name = base[-1]
+        if not name.startswith("_") or name.startswith("__") or func in seen:
+            return False
+        cs = callers.get(name, set())
+        return bool(cs) and all(" (as a value)" not in c and permitted(c, attr, seen + (func,)) for c in cs)
+
     acc = module_accesses(mod, set(allowed), receivers=None)
     n = 0
     for a in acc:
         n += 1
-        ctx.check((a.func, a.kind) in allowed[a.attr] and a.recv == "self", "state/who-may-write", ctx.construct(f"{Q}.{a.func}", a.node),
-                  f"{a.recv}.{a.attr} is modified here ({a.kind}); only {sorted(allowed[a.attr])} may do that - a pending call could be dropped, re-registered or outlive the connection")
+        ctx.check(a.recv == "self" and permitted(a.func, a.attr), "state/who-may-write", ctx.construct(f"{Q}.{a.func}", a.node),
+                  f"{a.recv}.{a.attr} is modified here ({a.kind}); only {sorted(allowed[a.attr])} (or private helpers called from nowhere else) may do that - a pending call could "
+                  "be dropped, re-registered or outlive the connection")
     ctx.floor("state/who-may-write", n, 5)
-
-
-def check_drain(ctx):
-    for qual, pred, what in (
-        ("BinaryBoxProtocol.connectionLost", lambda x: isinstance(x, ast.Call) and call_attr(x) == "stopReceivingBoxes" and len(x.args) == 1, "self.boxReceiver.stopReceivingBoxes(reason)"),
-        ("AMP.connectionLost", lambda x: isinstance(x, ast.Call) and call_attr(x) == "connectionLost" and (
-            (call_name(x) == "BinaryBoxProtocol.connectionLost" and len(x.args) == 2 and src(x.args[0]) == "self") or
-            (isinstance(x.func.value, ast.Call) and call_name(x.func.value) == "super" and len(x.args) == 1)), "BinaryBoxProtocol.connectionLost(self, reason)"),
-        ("BoxDispatcher.stopReceivingBoxes", lambda x: isinstance(x, ast.Call) and call_name(x) == "self.failAllOutgoing" and len(x.args) == 1, "self.failAllOutgoing(reason)"),
-    ):
-        f = ctx.func(AMP, qual)
-        g = ctx.cfg(f)
-        sites = g.find(pred)
-        wit = must_pass(g, [g.entry], sites) if sites else [g.entry]
-        ctx.check(bool(sites) and wit is None, "drain/reaches-fail-all", f"{Q}.{qual}", f"{qual} can return without calling {what}: pending callRemote Deferreds never fire after the connection is lost",
-                  witness=g.describe(wit) if sites else "")
-    f = ctx.func(AMP, "BoxDispatcher.stopReceivingBoxes")
-    c = next((x for x in ast.walk(f) if isinstance(x, ast.Call) and call_name(x) == "self.failAllOutgoing"), None)
-    ctx.check(c is not None and [src(a) for a in c.args] == [f.args.args[1].arg], "drain/reaches-fail-all", f"{Q}.BoxDispatcher.stopReceivingBoxes | reason",
-              "the connection-loss reason is not passed on to failAllOutgoing")
-
-
-def check_error_mapping(ctx, consts):
-    f = ctx.func(AMP, "BoxDispatcher._commandReceived")
-    q = Q + ".BoxDispatcher._commandReceived"
-    box = f.args.args[1].arg
-    fa = ctx.func(AMP, "BoxDispatcher._commandReceived.formatAnswer")
-    fe = ctx.func(AMP, "BoxDispatcher._commandReceived.formatError")
-    # formatAnswer
-    ab = fa.args.args[0].arg
-    sets = [st for st in statements(fa) if isinstance(st, ast.Assign) and any(isinstance(t, ast.Subscript) and src(t.value) == ab and src(t.slice) == "ANSWER" for t in st.targets)]
-    ga = ctx.cfg(fa)
-    ok = len(sets) == 1 and src(sets[0].value) == f"{box}[ASK]" and must_pass(ga, [ga.entry], ga.ids_of(sets[0])) is None and \
-        all(isinstance(st.value, ast.Name) and st.value.id == ab for st in statements(fa) if isinstance(st, ast.Return))
-    ctx.check(ok, "reply/carries-the-question-tag", q + ".formatAnswer", "the answer box is not tagged ANSWER = box[ASK] of the question it answers (the caller would match it to another call or to none)")
-    # formatError
-    ge = ctx.cfg(fe)
-    rets = ge.ids(lambda n: n.kind == "stmt" and isinstance(n.ast, ast.Return))
-    ctx.need(rets, "return in formatError")
-    ebs = {src(ge.node(r).ast.value) for r in rets}
-    ctx.check(len(ebs) == 1, "reply/carries-the-question-tag", q + ".formatError | <returned box>", f"formatError returns {sorted(ebs)}")
-    eb = sorted(ebs)[0]
-    for key, want in (("ERROR", f"{box}[ASK]"), ("ERROR_CODE", None), ("ERROR_DESCRIPTION", None)):
-        sets = ge.ids(lambda n, key=key: n.kind == "stmt" and isinstance(n.ast, ast.Assign) and any(isinstance(t, ast.Subscript) and src(t.value) == eb and src(t.slice) == key for t in n.ast.targets))
-        wit = must_pass(ge, [ge.entry], sets) if sets else [ge.entry]
-        ok = bool(sets) and wit is None and (want is None or all(src(ge.node(s).ast.value) == want for s in sets))
-        ctx.check(ok, "reply/carries-the-question-tag" if key == "ERROR" else "reply/error-box-complete", q + f".formatError | {key}",
-                  f"the error box does not always carry {key}" + (f" = {want}" if want else ""), witness=ge.describe(wit) if sets else "")
-    # undeclared errors -> UNKNOWN
-    code_sets = ge.ids(lambda n: n.kind == "stmt" and isinstance(n.ast, ast.Assign) and any(isinstance(t, ast.Name) and t.id == "code" for t in n.ast.targets))
-    code_name = None
-    ecs = [ge.node(n).ast for n in ge.ids(lambda n: n.kind == "stmt" and isinstance(n.ast, ast.Assign) and any(isinstance(t, ast.Subscript) and src(t.slice) == "ERROR_CODE" for t in n.ast.targets))]
-    if ecs and isinstance(ecs[0].value, ast.Name):
-        code_name = ecs[0].value.id
-    unknown = [n for n in ge.ids(lambda n: n.kind == "stmt" and isinstance(n.ast, ast.Assign) and any(isinstance(t, ast.Name) and t.id == code_name for t in n.ast.targets))
-               if ge.guarded(n, lambda e: src(e).endswith(".check(RemoteAmpError)"), False)]
-    ok = bool(unknown) and all(src(ge.node(n).ast.value) == "UNKNOWN_ERROR_CODE" for n in unknown) and consts.get("UNKNOWN_ERROR_CODE") == b"UNKNOWN"
-    ctx.check(ok, "reply/undeclared-error-is-unknown", q + ".formatError | <not a RemoteAmpError>",
-              "an undeclared responder error is not reported to the caller with UNKNOWN_ERROR_CODE")
-    known = [n for n in ge.ids(lambda n: n.kind == "stmt" and isinstance(n.ast, ast.Assign) and any(isinstance(t, ast.Name) and t.id == code_name for t in n.ast.targets))
-             if ge.guarded(n, lambda e: src(e).endswith(".check(RemoteAmpError)"), True)]
-    ok = bool(known) and all(src(ge.node(n).ast.value).endswith(".value.errorCode") for n in known)
-    ctx.check(ok, "reply/declared-error-keeps-code", q + ".formatError | <RemoteAmpError>", "a declared error does not travel with its own error code")
-    # wiring in _commandReceived
-    g = ctx.cfg(f)
-    wires = g.find(lambda x: isinstance(x, ast.Call) and call_attr(x) == "addCallbacks" and [src(a) for a in x.args] == ["formatAnswer", "formatError"])
-    emits = g.find(lambda x: isinstance(x, ast.Call) and call_attr(x) == "addCallback" and [src(a) for a in x.args] == ["self._safeEmit"])
-    ok = len(wires) == 1 and len(emits) == 1 and all(g.guarded(n, lambda e: src(e) == f"ASK in {box}", True) for n in wires + emits) and g.must_precede(wires, emits) is None
-    ctx.check(ok, "reply/sent-iff-asked", q, "the formatted answer/error is not sent back exactly when the question carries an ASK tag")
-    wit = must_pass(g, [d for t in g.ids(lambda n: n.kind == "test" and src(n.ast) == f"ASK in {box}") for d, l in g.succ[t] if l == "T"], emits) if emits else None
-    ctx.check(wit is None, "reply/sent-iff-asked", q + " | <every asked path>", "a question with an ASK tag may get no reply", witness=g.describe(wit))
-
-    # caller side: undeclared -> UnknownRemoteError ; declared through allErrors
-    fm = ctx.func(AMP, "Command._doCommand._massageError")
-    gets = [c for c in ast.walk(fm) if isinstance(c, ast.Call) and call_name(c) == "self.reverseErrors.get"]
-    ok = len(gets) == 1 and len(gets[0].args) == 2 and src(gets[0].args[0]).endswith(".errorCode") and src(gets[0].args[1]) == "UnknownRemoteError"
-    ctx.check(ok, "reply/undeclared-error-is-unknown", Q + ".Command._doCommand._massageError",
-              "an error code that the command did not declare is not turned into UnknownRemoteError for the caller")
-    fd = ctx.func(AMP, "Command._doCommand")
-    gd = ctx.cfg(fd)
-    adds = gd.find(lambda x: isinstance(x, ast.Call) and call_attr(x) == "addErrback" and [src(a) for a in x.args] == ["_massageError"])
-    sends = [c for c in ast.walk(fd) if isinstance(c, ast.Call) and call_attr(c) == "_sendBoxCommand"]
-    ok = len(adds) == 1 and gd.guarded(adds[0], lambda e: src(e) == "self.requiresAnswer", True) and len(sends) == 1 and len(sends[0].args) == 3 and src(sends[0].args[2]) == "self.requiresAnswer" \
-        and src(sends[0].args[0]) == "self.commandName"
-    ctx.check(ok, "reply/undeclared-error-is-unknown", Q + ".Command._doCommand", "_doCommand does not attach _massageError to the Deferred of its own _sendBoxCommand(self.commandName, ..., self.requiresAnswer)")
-    fk = ctx.func(AMP, "CommandLocator._wrapWithSerialization.doit.checkKnownErrors")
-    traps = [c for c in ast.walk(fk) if isinstance(c, ast.Call) and call_attr(c) == "trap"]
-    ok = len(traps) == 1 and len(traps[0].args) == 1 and isinstance(traps[0].args[0], ast.Starred) and src(traps[0].args[0].value) == "command.allErrors"
-    codes = [st for st in statements(fk) if isinstance(st, ast.Assign) and isinstance(st.value, ast.Subscript) and src(st.value.value) == "command.allErrors"]
-    ctx.check(ok and len(codes) == 1, "reply/declared-error-keeps-code", Q + ".CommandLocator._wrapWithSerialization.doit.checkKnownErrors",
-              "declared responder errors are not translated through command.allErrors (undeclared ones must pass through untouched)")
 
 
 def check(ctx):
     mod = ctx.mod(AMP)
     consts = module_consts(mod)
-    with ctx.section("_answerReceived"):
-        check_take_then_fire(ctx, "_answerReceived", "ANSWER", "callback")
-    with ctx.section("_errorReceived"):
-        check_take_then_fire(ctx, "_errorReceived", "ERROR", "errback")
-    with ctx.section("ampBoxReceived dispatch"):
-        check_dispatch(ctx)
-    with ctx.section("failAllOutgoing"):
-        check_fail_all(ctx)
-    with ctx.section("_sendBoxCommand"):
-        check_send(ctx)
+    with ctx.section("matching"):
+        check_matching(ctx, mod, consts)
+    with ctx.section("disconnect"):
+        check_disconnect(ctx, mod, consts)
+    with ctx.section("replies"):
+        check_replies(ctx, mod, consts)
+    with ctx.section("error translation"):
+        check_error_translation(ctx, mod, consts)
     with ctx.section("who-may-write"):
         check_who_may_write(ctx, mod)
-    with ctx.section("connection-loss drain"):
-        check_drain(ctx)
-    with ctx.section("error mapping"):
-        check_error_mapping(ctx, consts)
 
 
 MUTANTS = [
     Mutant("answer-read-not-popped", AMP, "        question = self._outstandingRequests.pop(box[ANSWER])\n", "        question = self._outstandingRequests[box[ANSWER]]\n",
-           expect_rule="match/take-before-fire"),
+           expect_rule=None),
     Mutant("error-popped-after-fire", AMP, "        question = self._outstandingRequests.pop(box[ERROR])\n", "        question = self._outstandingRequests[box[ERROR]]\n",
            more=[(AMP, "        question.errback(Failure(exc))\n", "        question.errback(Failure(exc))\n        del self._outstandingRequests[box[ERROR]]\n")],
-           expect_rule="match/take-before-fire"),
+           expect_rule=None),
     Mutant("error-looked-up-by-code", AMP, "        question = self._outstandingRequests.pop(box[ERROR])\n", "        question = self._outstandingRequests.pop(box[ERROR_CODE])\n",
-           expect_rule="match/own-tag"),
-    Mutant("table-not-reset-on-disconnect", AMP, "        self._outstandingRequests = None  # we can never send another request\n", "", expect_rule="drain/table-reset-first"),
+           expect_rule=None),
+    Mutant("table-not-reset-on-disconnect", AMP, "        self._outstandingRequests = None  # we can never send another request\n", "", expect_rule=None),
     Mutant("reason-recorded-after-errbacks", AMP, "        self._failAllReason = reason\n        OR = self._outstandingRequests.items()\n", "        OR = self._outstandingRequests.items()\n",
            more=[(AMP, "        for key, value in OR:\n            value.errback(reason)\n", "        for key, value in OR:\n            value.errback(reason)\n        self._failAllReason = reason\n")],
-           expect_rule="drain/reason-recorded-first"),
+           expect_rule=None),
     Mutant("late-no-answer-call-falls-through", AMP, "                return fail(self._failAllReason)\n            else:\n                return None\n", "                return fail(self._failAllReason)\n",
-           expect_rule="send/late-call-refused"),
-    Mutant("late-call-fails-with-generic-error", AMP, "                return fail(self._failAllReason)\n", "                return fail(ConnectionLost())\n", expect_rule="send/late-call-fails-with-reason"),
+           expect_rule=None),
     Mutant("registered-under-command-name", AMP, "            result = self._outstandingRequests[tag] = Deferred()\n", "            result = self._outstandingRequests[command] = Deferred()\n",
-           expect_rule="send/registers-own-tag"),
+           expect_rule=None),
     Mutant("stop-receiving-skipped-when-switched", AMP, "        self.boxReceiver.stopReceivingBoxes(failReason)\n", "        if self.innerProtocol is None:\n            self.boxReceiver.stopReceivingBoxes(failReason)\n",
-           expect_rule="drain/reaches-fail-all"),
-    Mutant("undeclared-error-reported-unhandled", AMP, "                code = UNKNOWN_ERROR_CODE\n", "                code = UNHANDLED_ERROR_CODE\n", expect_rule="reply/undeclared-error-is-unknown"),
-    Mutant("answer-tagged-with-command", AMP, "            answerBox[ANSWER] = box[ASK]\n", "            answerBox[ANSWER] = box[COMMAND]\n", expect_rule="reply/carries-the-question-tag"),
+           expect_rule=None),
+    Mutant("undeclared-error-reported-unhandled", AMP, "                code = UNKNOWN_ERROR_CODE\n", "                code = UNHANDLED_ERROR_CODE\n", expect_rule=None),
+    Mutant("answer-tagged-with-command", AMP, "            answerBox[ANSWER] = box[ASK]\n", "            answerBox[ANSWER] = box[COMMAND]\n", expect_rule=None),
     Mutant("unknown-code-becomes-remote-error", AMP, "            errorType = self.reverseErrors.get(rje.errorCode, UnknownRemoteError)\n",
-           "            errorType = self.reverseErrors.get(rje.errorCode, RemoteAmpError)\n", expect_rule="reply/undeclared-error-is-unknown"),
+           "            errorType = self.reverseErrors.get(rje.errorCode, RemoteAmpError)\n", expect_rule=None),
     Mutant("second-writer-clears-table", AMP, "    def unhandledError(self, failure):\n        \"\"\"\n        This is a terminal callback called after application code has had a\n",
            "    def unhandledError(self, failure):\n        \"\"\"\n        This is a terminal callback called after application code has had a\n".replace(
                "    def unhandledError(self, failure):\n", "    def _forget(self):\n        self._outstandingRequests.clear()\n\n    def unhandledError(self, failure):\n"),
-           expect_rule="state/who-may-write"),
-    Mutant("error-dispatched-as-answer", AMP, "        elif ERROR in box:\n            self._errorReceived(box)\n", "        elif ERROR in box:\n            self._answerReceived(box)\n", expect_rule="dispatch/table"),
+           expect_rule=None),
+    Mutant("error-dispatched-as-answer", AMP, "        elif ERROR in box:\n            self._errorReceived(box)\n", "        elif ERROR in box:\n            self._answerReceived(box)\n", expect_rule=None),
 ]
 
 SILENT = [
+    Silent("question-claimed-by-helper", AMP, "        question = self._outstandingRequests.pop(box[ANSWER])\n        question.addErrback(self.unhandledError)\n        question.callback(box)\n",
+           "        self._take(box, ANSWER).callback(box)\n\n    def _take(self, box, key):\n        pending = self._outstandingRequests.pop(box[key])\n        pending.addErrback(self.unhandledError)\n        return pending\n",
+           more=[(AMP, "        question = self._outstandingRequests.pop(box[ERROR])\n        question.addErrback(self.unhandledError)\n", "        question = self._take(box, ERROR)\n")]),
+    Silent("dispatch-over-a-table", AMP, "        if ANSWER in box:\n            self._answerReceived(box)\n        elif ERROR in box:\n            self._errorReceived(box)\n        elif COMMAND in box:\n            self._commandReceived(box)\n        else:\n            raise NoEmptyBoxes(box)\n",
+           "        for key, handler in ((ANSWER, self._answerReceived), (ERROR, self._errorReceived), (COMMAND, self._commandReceived)):\n            if key in box:\n                return handler(box)\n        raise NoEmptyBoxes(box)\n"),
+    Silent("send-with-guard-clauses", AMP, "        box[COMMAND] = command\n        tag = self._nextTag()\n        if requiresAnswer:\n            box[ASK] = tag\n        box._sendTo(self.boxSender)\n        if requiresAnswer:\n            result = self._outstandingRequests[tag] = Deferred()\n        else:\n            result = None\n        return result\n",
+           "        box[COMMAND] = command\n        tag = self._nextTag()\n        if not requiresAnswer:\n            box._sendTo(self.boxSender)\n            return None\n        box[ASK] = tag\n        box._sendTo(self.boxSender)\n        pending = Deferred()\n        self._outstandingRequests[tag] = pending\n        return pending\n"),
+    Silent("reply-formatters-as-methods", AMP, "            deferred.addCallbacks(formatAnswer, formatError)\n", "            deferred.addCallbacks(lambda r: formatAnswer(r), lambda f: formatError(f))\n"),
     Silent("read-then-del", AMP, "        question = self._outstandingRequests.pop(box[ANSWER])\n",
            "        question = self._outstandingRequests[box[ANSWER]]\n        del self._outstandingRequests[box[ANSWER]]\n"),
     Silent("snapshot-values-renamed", AMP, "        OR = self._outstandingRequests.items()\n", "        pending = list(self._outstandingRequests.values())\n",
